@@ -16,8 +16,8 @@
   `handlePanic` exits non-zero, the order of the calls in InvokeThriftgo) are the
   regenerated `Cfg` / tables in `Generated/C04.lean`.
 
-  Go strings are `Name = List Nat` (bytes).  Unbounded Go recursion is fuel; fuel
-  exhaustion is an explicit outcome (`none` / `.crash`), never silently "ok".
+  Go strings are `Name = List Nat` (bytes).  Go recursion is fuel; fuel exhaustion is an explicit
+  outcome (`none` / `.crash`), never silently "ok" — and is proved impossible (DiagLemmas).
   Core Lean only: the driver `tv_c04` links this file.
 -/
 namespace Diag
@@ -192,14 +192,21 @@ def unionLoop (sets : Bool) (hasDefault : Bool) : List Field → Option Rule
 def checkUnions (cfg : Cfg) (f : File) : Option Rule :=
   f.unions.findSome? fun u => unionLoop cfg.unionSetsHasDefault false u.fields
 
-/-- the per-service loop of CheckFunctions (arguments and throws are only warned about) -/
+/-- the per-service loop of CheckFunctions: name, oneway rules, then `checkFunctionFields` on the
+arguments and on the throws list (the same id-then-name loop as for struct-likes) -/
 def funcLoop (defined : List Name) : List Func → Option Rule
   | [] => none
   | f :: r =>
     if f.name ∈ defined then some .dupFunction
     else if f.oneway && !f.void then some .onewayNonVoid
     else if f.oneway && !f.throws.isEmpty then some .onewayThrows
-    else funcLoop (f.name :: defined) r
+    else
+      match fieldLoop [] [] f.args with
+      | some e => some e
+      | none =>
+        match fieldLoop [] [] f.throws with
+        | some e => some e
+        | none => funcLoop (f.name :: defined) r
 
 def checkFunctions (f : File) : Option Rule :=
   f.services.findSome? fun s => funcLoop [] s.funcs
@@ -458,12 +465,23 @@ def typeRef (cfg : Cfg) (tables : List (Option Table)) (f : File) (n : Name) : O
 def enumValues (f : File) (name : Name) : Option (List Name) :=
   (f.enums.find? fun e => e.name = name).map fun e => e.values.map (·.1)
 
-/-- getEnum.  Outer `none` = fuel exhausted = the Go stack overflows. Inner: the enum's value names.
-(A typedef of a base or container type ends the search: no table has an entry called `list`, `i32`, ….) -/
+def enumFrom {α : Type} (k : Nat) : List α → List (Nat × α)
+  | [] => []
+  | x :: r => (k, x) :: enumFrom (k + 1) r
+
+/-- every (file, typedef alias) pair: what the `seen` set of getEnumVisited can hold -/
+def typedefKeys (p : Program) : List (Nat × Name) :=
+  (enumFrom 0 p.files).flatMap fun (i, f) => f.typedefs.map fun td => (i, td.alias)
+
+/-- getEnum = getEnumVisited with its `seen` set (the calls form a chain, so the set is the path).
+Outer `none` = fuel exhausted (shown impossible: `seen` only holds distinct typedef keys).
+Inner: the enum's value names.  A typedef met twice ends the search; so does a typedef of an
+include-qualified name that is no enum there, and a typedef of a base or container type (no table
+has an entry called `list`, `i32`, …). -/
 def getEnum (cfg : Cfg) (p : Program) (tables : List (Option Table)) :
-    Nat → Nat → Name → Option (Option (List Name))
-  | 0, _, _ => none
-  | fuel + 1, i, name =>
+    Nat → List (Nat × Name) → Nat → Name → Option (Option (List Name))
+  | 0, _, _, _ => none
+  | fuel + 1, seen, i, name =>
     match p.files[i]? with
     | none => some none
     | some f =>
@@ -473,15 +491,12 @@ def getEnum (cfg : Cfg) (p : Program) (tables : List (Option Table)) :
         match f.typedefs.find? fun td => td.alias = name with
         | none => some none
         | some td =>
+          if (i, name) ∈ seen then some none else
           match td.ty with
           | .ref n =>
             match typeRef cfg tables f n with
-            | some (j, nm) =>
-              match getEnum cfg p tables fuel j nm with
-              | none => none
-              | some (some e) => some (some e)
-              | some none => getEnum cfg p tables fuel i n
-            | none => getEnum cfg p tables fuel i n
+            | some (j, nm) => getEnum cfg p tables fuel ((i, name) :: seen) j nm
+            | none => getEnum cfg p tables fuel ((i, name) :: seen) i n
           | _ => some none
       | _ => some none
 
@@ -489,12 +504,12 @@ def countName (n : Name) (l : List Name) : Nat := (l.filter (· = n)).length
 
 def isBoolIdent (id : Name) : Bool := id = [116, 114, 117, 101] || id = [102, 97, 108, 115, 101]
 
-/-- how many `ConstValueExtra` one split of an identifier contributes; `none` = getEnum overflowed -/
+/-- how many `ConstValueExtra` one split of an identifier contributes; `none` = getEnum ran out of fuel -/
 def countSplit (cfg : Cfg) (p : Program) (tables : List (Option Table)) (fuel : Nat) (i : Nat) (f : File) :
     List Name → Option Nat
   | [a] => some (if tlookup a (tableOf tables i) = some .constant then 1 else 0)
   | [a, b] =>
-    match getEnum cfg p tables fuel i a with
+    match getEnum cfg p tables fuel [] i a with
     | none => none
     | some e =>
       let n1 := match e with
@@ -508,7 +523,7 @@ def countSplit (cfg : Cfg) (p : Program) (tables : List (Option Table)) (fuel : 
       | none => none
       | some n =>
         if iv.pfx = a then
-          match getEnum cfg p tables fuel iv.ref e with
+          match getEnum cfg p tables fuel [] iv.ref e with
           | none => none
           | some (some vs) => some (n + countName v vs)
           | some none => some n
@@ -522,7 +537,7 @@ def addCounts : Option Nat → Option Nat → Option Nat
   | some n, some m => some (n + m)
   | _, _ => none
 
-/-- `len(ref)` after the loop over SplitValue(id); `none` = getEnum overflowed the stack -/
+/-- `len(ref)` after the loop over SplitValue(id); `none` = getEnum ran out of fuel -/
 def countIdent (cfg : Cfg) (p : Program) (tables : List (Option Table)) (fuel : Nat) (i : Nat) (f : File)
     (id : Name) : Option Nat :=
   (splitValue id).foldl (fun acc ss => addCounts acc (countSplit cfg p tables fuel i f ss)) (some 0)
@@ -550,10 +565,6 @@ def resolveIdents (cfg : Cfg) (p : Program) (tables : List (Option Table)) (fuel
     | .ambiguous => .err .ambiguous
     | .crash => .crash
 
-def enumFrom {α : Type} (k : Nat) : List α → List (Nat × α)
-  | [] => []
-  | x :: r => (k, x) :: enumFrom (k + 1) r
-
 /-- ResolveBaseService -/
 def resolveBase (tbl : Table) (incs : List IncV) (s : Service) : Bool :=
   match splitType s.ext with
@@ -572,7 +583,7 @@ def fieldWork (fl : Field) : List Work :=
   [.type none fl.ty] ++ (if fl.hasDefault then [.idents fl.dflt] else [])
 
 def funcWork (fn : Func) : List Work :=
-  (if fn.void then [] else [.type none fn.ret]) ++ fn.args.map (fun a => .type none a.ty) ++ fn.throws.map (fun a => .type none a.ty)
+  (if fn.void then [] else [.type none fn.ret]) ++ fn.args.flatMap fieldWork ++ fn.throws.flatMap fieldWork
 
 def fileWork (f : File) : List Work :=
   (enumFrom 0 f.typedefs).map (fun (k, td) => .type (some k) td.ty) ++
@@ -602,8 +613,8 @@ def initCats (cfg : Cfg) (f : File) (tbl : Table) (incs : List IncV) : List Bool
     | .ok (b, _) => b
     | .error _ => false
 
-/-- fuel for getEnum: every step moves to another typedef; an acyclic chain is no longer than this -/
-def enumFuel (p : Program) : Nat := (p.files.map fun f => f.typedefs.length).sum + 2
+/-- fuel for getEnum: every step that goes on puts a new typedef key into `seen` -/
+def enumFuel (p : Program) : Nat := (typedefKeys p).length + 2
 
 /-- ResolveAST of file `i`, its includes already resolved -/
 def resolveFile (cfg : Cfg) (p : Program) (tables : List (Option Table)) (i : Nat) : RRes :=
@@ -707,19 +718,5 @@ def wfb (p : Program) : Bool :=
   decide (p.root < p.files.length) &&
   p.files.all (fun f => f.includes.all fun inc => decide (inc.ref < p.files.length)) &&
   decide (p.files.map (·.filename)).Nodup
-
-/-- every dotted identifier's selector is not a typedef where getEnum would look it up -/
-def identSafe (tables : List (Option Table)) (i : Nat) (f : File) (id : Name) : Bool :=
-  (splitValue id).all fun ss =>
-    match ss with
-    | [a, _] => tlookup a (tableOf tables i) != some .typedef
-    | [a, e, _] => (incViews tables f).all fun v => !(v.pfx = a) || tlookup e v.tbl != some .typedef
-    | _ => true
-
-def fileIdents (f : File) : List Name :=
-  f.consts.flatMap (·.idents) ++ f.structLikes.flatMap (fun s => s.fields.flatMap fun fl => if fl.hasDefault then fl.dflt else [])
-
-def identsAvoidTypedefs (p : Program) : Bool :=
-  (enumFrom 0 p.files).all fun (i, f) => (fileIdents f).all (identSafe (programTables p) i f)
 
 end Diag
